@@ -89,6 +89,26 @@ package route
 //@   ensures old(t.m[final(pattern)]) != nil ==> len(t.l) <= old(len(t.l)) && len(t.l) >= old(len(t.l)) - 1 && len(t.saves) <= old(len(t.saves))
 //@   ensures old(t.m[final(pattern)]) == nil ==> len(t.removes) == old(len(t.removes)) && len(t.saves) == old(len(t.saves)) && len(t.l) == old(len(t.l))
 
+// Save: afterwards the table resolves the (canonical) pattern to an entry that carries the saved URL and keep-alive flag -
+// whether the pattern was present (updated in place), absent, or deleted since the last flush (a new entry, never a
+// revived old one); the entry list grows by exactly the new entry or not at all; nothing is dropped from the pending saves
+//@ import "net/url"
+//@ extern func url.Parse(rawurl string) (u *url.URL, err error)
+//@   modifies
+//@ func (t *routetable) Save(newr *Route) (err error)
+//@   requires tableOK(t) && newr != nil
+//@   modifies held(&t.lock), ghostInt(&t.lock, "sections"), newr.Pattern, t.l, t.l[:cap(t.l)], t.saves, t.saves[:cap(t.saves)], t.removes, t.removes[:cap(t.removes)], mapAll(t.m), anyFld((*Route)(nil).URL), anyFld((*Route)(nil).KeepAlive)
+//@   local rangeindex int
+//@   loop 0: modifies
+//@   loop 0: invariant -1 <= rangeindex && rangeindex <= len(t.saves) && sameHdr(t.saves, old(t.saves))
+//@   loop 1: modifies
+//@   loop 1: invariant -1 <= rangeindex && rangeindex <= len(t.removes) && sameHdr(t.removes, old(t.removes))
+//@   ensures !held(&t.lock)
+//@   ensures err == nil ==> t.m[newr.Pattern] != nil && sameStr(t.m[newr.Pattern].URL, newr.URL) && t.m[newr.Pattern].KeepAlive == newr.KeepAlive
+//@   ensures err == nil ==> len(t.l) == old(len(t.l)) || (len(t.l) == old(len(t.l)) + 1 && t.l[old(len(t.l))] == newr && t.m[newr.Pattern] == newr)
+//@   ensures err == nil ==> len(t.saves) >= old(len(t.saves)) && len(t.removes) <= old(len(t.removes))
+//@   ensures err != nil ==> len(t.l) == old(len(t.l)) && len(t.saves) == old(len(t.saves)) && len(t.removes) == old(len(t.removes))
+
 //@ extern func (p Provider) Flush(full []*Route, saves []*Route, removes []*Route) (err error)
 //@   modifies ghostInt(p, "flushes")
 //@   ensures ghostInt(p, "flushes") == old(ghostInt(p, "flushes")) + 1
